@@ -205,6 +205,79 @@ MUTANTS = [
     M("save-prefix-ifexp-wrong-test", F, SAVE_IDX,
       "        self.state[\"last-complete-prefix\"] = self.prefixes[lcpi] if lcpi > 0 else None\n", "C27.2",
       note="prefix index 0 is saved as 'no prefix completed'"),
+    # ---- C27.6 a slice cannot abort on an unbound name
+    M("timeslice-flag-unbound", F,
+      "        except TimeSliceExceeded:\n            finished_cycle = False\n",
+      "        except TimeSliceExceeded:\n            pass\n", "C27.6",
+      note="sweep survivor: after the first exhausted time slice 'if finished_cycle' raises UnboundLocalError inside "
+           "the callLater callback - state saved, timer never re-armed, the cycle is never completed; a store small "
+           "enough to be crawled in one slice never notices"),
+    M("finished-flag-unbound", F,
+      "            self.start_current_prefix(start_slice)\n            finished_cycle = True\n",
+      "            self.start_current_prefix(start_slice)\n", "C27.6"),
+    M("cycle-end-clock-unbound", F,
+      "        self.last_prefix_finished_time = None # don't include the sleep\n        now = time.time()\n",
+      "        self.last_prefix_finished_time = None # don't include the sleep\n", "C27.6",
+      note="sweep survivor: 'now' is then bound only inside the prefix loop; a slice that resumes after the last "
+           "prefix was completed (time slice exhausted right after prefix 1023) runs the loop zero times and the "
+           "end-of-cycle bookkeeping raises before last-cycle-finished is recorded"),
+    M("default-state-unbound", F,
+      "        except Exception:\n            state = {\"version\": 1,\n                     \"last-cycle-finished\": None,\n"
+      "                     \"current-cycle\": None,\n                     \"last-complete-prefix\": None,\n"
+      "                     \"last-complete-bucket\": None,\n                     }\n",
+      "        except Exception:\n            pass\n", "C27.6"),
+    M("slice-length-never-bound", F, "        this_slice = now - start_slice\n", "", "C27.6",
+      note="sweep survivor: with its only store gone the name is a global lookup - NameError after save_state, before "
+           "the timer is re-armed, in every slice"),
+    M("prefix-elapsed-never-bound", F, "                elapsed = now - self.last_prefix_finished_time\n",
+      "                pass\n", "C27.6"),
+    M("cycle-start-time-lazily-initialised", F,
+      "        self.last_cycle_started_time = None\n        self.last_cycle_elapsed_time = None\n",
+      "        self.last_cycle_elapsed_time = None\n", "C27.6",
+      note="sweep survivor: last_cycle_started_time is otherwise bound only when a cycle is *started*; a process "
+           "restarted in mid-cycle reaches the end-of-cycle test 'self.last_cycle_started_time is not None' with the "
+           "attribute missing - AttributeError after last_complete_prefix_index was reset and before "
+           "last-cycle-finished is recorded, on every restart"),
+    M("prefix-clock-lazily-initialised", F,
+      "        self.last_prefix_finished_time = None\n        self.last_prefix_elapsed_time = None\n",
+      "        self.last_prefix_elapsed_time = None\n", "C27.6"),
+    M("init-does-not-load-state", F,
+      "        self.last_cycle_elapsed_time = None\n        self.load_state()\n",
+      "        self.last_cycle_elapsed_time = None\n", "C27.6"),
+    M("sharedir-not-set", F, "        self.sharedir = server.sharedir\n", "", "C27.6"),
+    M("timer-not-initialised", F, "        self.timer = None\n        self.bucket_cache = (None, [])\n",
+      "        self.bucket_cache = (None, [])\n", "C27.6"),
+    M("benign-timing-attrs-as-class-attributes", F,
+      "        self.last_prefix_finished_time = None\n        self.last_prefix_elapsed_time = None\n"
+      "        self.last_cycle_started_time = None\n        self.last_cycle_elapsed_time = None\n", "", None,
+      edits=[(F, "    minimum_cycle_time = 300 # don't run a cycle faster than this\n",
+              "    minimum_cycle_time = 300 # don't run a cycle faster than this\n"
+              "    last_prefix_finished_time = None\n    last_prefix_elapsed_time = None\n"
+              "    last_cycle_started_time = None\n    last_cycle_elapsed_time = None\n")]),
+    M("benign-timing-attrs-in-helper", F,
+      "        self.last_prefix_finished_time = None\n        self.last_prefix_elapsed_time = None\n"
+      "        self.last_cycle_started_time = None\n        self.last_cycle_elapsed_time = None\n        self.load_state()\n",
+      "        self._reset_timing()\n        self.load_state()\n", None,
+      edits=[(F, "    def minus_or_none(self, a, b):\n",
+              "    def _reset_timing(self):\n        self.last_prefix_finished_time = None\n"
+              "        self.last_prefix_elapsed_time = None\n        self.last_cycle_started_time = None\n"
+              "        self.last_cycle_elapsed_time = None\n\n    def minus_or_none(self, a, b):\n")]),
+    M("benign-flag-preset-before-try", F,
+      "        try:\n            self.start_current_prefix(start_slice)\n            finished_cycle = True\n"
+      "        except TimeSliceExceeded:\n            finished_cycle = False\n",
+      "        finished_cycle = False\n        try:\n            self.start_current_prefix(start_slice)\n"
+      "            finished_cycle = True\n        except TimeSliceExceeded:\n            pass\n", None),
+    M("benign-one-clock-reading-per-cycle-end", F,
+      "        self.last_prefix_finished_time = None # don't include the sleep\n        now = time.time()\n"
+      "        if self.last_cycle_started_time is not None:\n"
+      "            self.last_cycle_elapsed_time = now - self.last_cycle_started_time\n",
+      "        self.last_prefix_finished_time = None # don't include the sleep\n"
+      "        if self.last_cycle_started_time is not None:\n"
+      "            self.last_cycle_elapsed_time = time.time() - self.last_cycle_started_time\n", None),
+    M("benign-slice-length-inlined", F,
+      "        this_slice = now - start_slice\n", "", None,
+      edits=[(F, "        sleep_time = (this_slice / self.allowed_cpu_percentage) - this_slice\n",
+              "        sleep_time = ((now - start_slice) / self.allowed_cpu_percentage) - (now - start_slice)\n")]),
     # ---- benign
     M("benign-rename-bucket", F, PP_BODY, PP_BODY.replace("bucket in buckets", "b in buckets").replace(
         "bucket <=", "b <=").replace("prefixdir, bucket)", "prefixdir, b)").replace("] = bucket\n", "] = b\n"), None),
